@@ -41,6 +41,17 @@ def step (st : DState) (line : String) : DState × String :=
   | ["sel", "below"] =>
     -- the specification `properAncestor` (Lemmas.lean) on the recorded paths and on the paths on disk
     (st, showSel (st.store.filter (properAncestor st.cwd)) ++ ";" ++ showSel (st.disk.filter (properAncestor st.cwd)))
+  | ["refused", f, dest, src] =>
+    -- destination guard of copy / move for one source (root-relative path `src`): the destination path and the
+    -- decision; the repository root is the symbolic component `R`, "on disk" = among the `disk` paths below `R`
+    let onDisk : List Str → Bool := fun p =>
+      match p with
+      | r :: rest => r == "R".toList && st.disk.contains (joinComps rest)
+      | [] => false
+    let srcC := comps src
+    let d := joinComps (copyDest st.cwd dest.toList srcC)
+    (st, String.ofList d ++ ";" ++
+      (if copyRefused (f == "1") st.store onDisk ["R".toList] st.cwd dest.toList srcC then "1" else "0"))
   | ["xvcpath", p] => (st, "/".intercalate ((xvcPathNew st.cwd p.toList).map String.ofList))
   | [""] => (st, "")
   | _ => (st, "bad-op")
